@@ -23,6 +23,7 @@ import numpy as np
 
 from .c07_synth import Spec, Transcription, syn_class
 from .common import fr, quiet_fd
+from .translate_c07 import gen_cluster
 
 INF = float("inf")
 
@@ -580,9 +581,13 @@ def run(c):
         "CPython iterates a set of small non-negative ints in ascending order (member order inside a child list; "
         "only relevant for ties between different members)",
         "np.argmax returns the first maximal index; NumPy >= 2 raises OverflowError on int16 overflow (F10)",
+        "source translation (harness/translate_c07.py): the table in its header maps the Python / NumPy constructs of "
+        "branch() to model terms (trusted); first seed, score array + stop rule and the allocation scan are proved equal "
+        "to the model's selectReps / moreReps / nearestRep on every run, the loop skeleton around them is matched "
+        "structurally only",
     ]
     warnings.filterwarnings("ignore")
-    c.prove()
+    c.prove(extra=gen_cluster(c))
     stream_tree_malformed(c)
     stream_int16(c)
     stream_flat(c, c.n(40, 600))
